@@ -4,14 +4,23 @@ import SquidModel.Properties.C29
 #print axioms SquidModel.C29.parse_other_exact
 #print axioms SquidModel.C29.items_wellformed
 #print axioms SquidModel.C29.items_of_joined
+#print axioms SquidModel.C29.items_complete
+#print axioms SquidModel.C29.items_cover_value
+#print axioms SquidModel.C29.parseInt_model_matches_source
 #print axioms SquidModel.C29.flag_present_iff
 #print axioms SquidModel.C29.valid_numeric_exact
 #print axioms SquidModel.C29.numeric_recorded_range
-#print axioms SquidModel.C29.invalid_numeric_absent_counterexample_wrap
 #print axioms SquidModel.C29.invalid_numeric_absent_counterexample_garbage
+#print axioms SquidModel.C29.invalid_numeric_absent_counterexample_sign
+#print axioms SquidModel.C29.invalid_numeric_absent_counterexample_space
+#print axioms SquidModel.C29.big_numeric_absent_example
 #print axioms SquidModel.C29.invalid_numeric_absent_partial
 #print axioms SquidModel.C29.absent_numeric_effect
 #print axioms SquidModel.C29.quoted_list_exact
 #print axioms SquidModel.C29.quoted_pair_counterexample
 #print axioms SquidModel.C29.quoted_pair_counterexample_backslash
 #print axioms SquidModel.C29.quoted_htab_counterexample
+#print axioms SquidModel.C29.pack_parse_roundtrip_counterexample
+#print axioms SquidModel.C29.pack_parse_roundtrip_partial
+#print axioms SquidModel.C29.parse_result_invariants
+#print axioms SquidModel.C29.pack_shape
